@@ -282,7 +282,54 @@ def r20_4(ctx):
                'stores into value.{%s}; expected value.%s' % (','.join(sorted(members)), member))
 
 
+def r20_5(ctx):
+    """every dispatch on the type of an external variable handles every type that
+    can be stored in one"""
+    prog = ctx.prog
+    produced = {}
+    for f in prog.fns():
+        for n in f.all_nodes():
+            if n['k'] == 'bin' and n['op'] == '=':
+                l = cu.strip_casts(f, f.kid(n, 0))
+                r = cu.strip_casts(f, f.kid(n, 1))
+                if l is not None and l['k'] == 'member' and l['fld'] == 'type' and \
+                        l.get('rec') in ('YR_EXTERNAL_VARIABLE', '_YR_EXTERNAL_VARIABLE') and \
+                        r is not None and r.get('mn', '').startswith('EXTERNAL_VARIABLE_TYPE_') and \
+                        r['mn'] != 'EXTERNAL_VARIABLE_TYPE_NULL':
+                    produced.setdefault(r['mn'], (f, n))
+    ctx.require(len(produced) >= 5 or ctx.fixture, 'only %d external types are ever stored' % len(produced))
+    n_sw = 0
+    for f in prog.fns():
+        k = 0
+        for sw in cu.find_switches(f):
+            c = cu.strip_casts(f, cu.switch_cond(f, sw))
+            if c is None or c['k'] != 'member' or c['fld'] != 'type' or \
+                    c.get('rec') not in ('YR_EXTERNAL_VARIABLE', '_YR_EXTERNAL_VARIABLE'):
+                continue
+            n_sw += 1
+            cases = set()
+            has_default = False
+            for labels, stmts in cu.switch_groups(f, sw):
+                for l in labels:
+                    if l['k'] == 'default':
+                        has_default = True
+                    elif l.get('mn') and l.get('v') == prog.macro_value(l['mn']):
+                        cases.add(l['mn'])
+            missing = sorted(t for t in produced if t not in cases)
+            ok = not missing or has_default
+            ctx.ob('R20.5', '%s:switch%d:handles-every-external-type' % (f.name, k), ok, f.loc(sw),
+                   'handles %s%s' % (', '.join(sorted(cases)), ' and has a default' if has_default else '')
+                   if ok else
+                   'this switch on the type of an external variable has no case for %s (stored e.g. at '
+                   '%s) and no default: a variable of that type is silently left without its value' % (
+                       ', '.join(missing), produced[missing[0]][0].loc(produced[missing[0]][1])))
+            k += 1
+    ctx.count('external_type_switches', n_sw)
+
+
 FIXTURES = {
+    'R20.5': {'src': 'C20/define.c', 'run': r20_5, 'expect': 'to_object_bad:switch0:handles-every-external-type',
+              'expect_ok': 'to_object_good:switch0:handles-every-external-type'},
     'R20.1': {'src': 'C20/define.c', 'run': r20_1,
               'expect': 'yr_rules_define_integer_variable:type-check-dominates-store',
               'expect_ok': 'yr_rules_define_string_variable:type-check-dominates-store'},
@@ -297,3 +344,5 @@ def run(ctx):
     r9_4(ctx)       # R20.3 = the snapshot obligations shared with C09
     r20_4(ctx)
     ctx.floor('R20.4', 8)
+    r20_5(ctx)
+    ctx.floor('R20.5', 2)
